@@ -3,6 +3,7 @@ import pool
 import pool2
 
 META = {
+    "thorough_extra": ["mocks", "client-only"],
     "level": "other",
     "explanation": "Necessary conditions for liveness of connection acquisition, decided on all (feasible) paths: (E-WAKER) no poll function of the pool returns a fresh "
                    "Pending except on the Pending edge of a callee that received the task context; (P9) every push clears the in-flight marker and serves waiters; "
@@ -20,7 +21,7 @@ META = {
 
 RULES = [
     ("E-WAKER", pool2.E_WAKER_pool, ["default"]),
-    ("P9", pool2.P9, ["default"]),
+    ("P9", pool2.P9_aspects("marker", "waiters-first", "delivered-or-drained"), ["default"]),
     ("P10", pool2.P10, ["default"]),
     ("P11", pool2.P11, ["default"]),
     ("P12", pool2.P12, ["default"]),
